@@ -67,13 +67,14 @@ S["C06"] = dict(title="Inbound messages are returned byte-exact under any fragme
   outside=["the literal 128 KiB buffer","topics near 65535 bytes","more than 2 packets per stream (alignment after each packet is the inductive step)","CONNACK coalesced with following packets (C18)"])
 _c04steps = H("verifH_C04_steps", "L04.b/c marker Save strictly before PUBREC, marker Delete strictly before PUBCOMP, store or write failure keeps the acknowledgement owed and nothing premature on the wire", T({"wfaults":1,"storefaults":1}), T({"wfaults":2,"storefaults":1}), ("marker-save-failed","marker-delete-failed","pubrec-written","pubrec-write-failed","pubcomp-written","pubcomp-write-failed"))
 _ackdown = H("verifH_C07_ackwhiledown", "L07.d acknowledgement (PUBACK/PUBREC/PUBCOMP, any identifier) owed while another writer's failure left the write token at connPending and the connection closed: nothing written to the dead connection, the acknowledgement stays owed and is the first and only packet after CONNECT on the next connection", reach=("end",))
-S["C04"] = dict(title="Exactly-once reception: delivered once per cycle, handshake always answered", technique=TECH+"; reference receiver as oracle", harnesses=[_c04steps, _ackdown, _stream, _stream1, _stream1b, _stream_pre,
+_pubreldown = H("verifH_C07_pubrelwhiledown", "L07.d' PUBREL already buffered when another writer's failure closed the connection and left the write token at connPending: marker deleted, nothing written to the dead connection, PUBCOMP stays owed and is the first and only packet after CONNECT on the next connection", reach=("end",))
+S["C04"] = dict(title="Exactly-once reception: delivered once per cycle, handshake always answered", technique=TECH+"; reference receiver as oracle", harnesses=[_c04steps, _ackdown, _pubreldown, _stream, _stream1, _stream1b, _stream_pre,
     H("verifH_C13_packet", "L04.a/c single PUBLISH/PUBREL against marker state", T({"W":0,"maxbody":5}), T({"W":0,"maxbody":7}, time_sec=1500), ("legit-duplicate","legit-pubrel","legit-publish"))],
   assumptions=_inasm+["the documented BUG (marker Save failed and the process stopped before recovery) is outside, as the property says"],
   bounds={"quick":"<= 2 inbound packets per stream incl. retransmission of an owned identifier and PUBREL, identifiers free 16-bit","thorough":"as C06 thorough"},
   outside=["restart between delivery and marker Save (see C02 crash-point harness)","BigMessage-sized duplicates beyond 2B+1"])
 S["C07"] = dict(title="Inbound acknowledgements go out only after the application took ownership", technique=TECH+"; trace property of consecutive ReadSlices invocations", harnesses=[_c04steps, _stream, _stream1, _stream1b, _stream_pre,
-    _ackdown,
+    _ackdown, _pubreldown,
     H("verifH_C10_offline", "connection lost inside a packet or during the skip of an unread big message: the acknowledgement owed for a returned message is sent first on the next connection, none for a message never returned", reach=("offline","skipped-big-acked"))],
   assumptions=_inasm,
   bounds={"quick":"<= 2 inbound packets per stream, every return followed by one more ReadSlices","thorough":"as C06 thorough"},
